@@ -14,10 +14,10 @@ def text(pid):
     s=s.replace(' in the orderly way of C03',' in the orderly way (every outstanding request completed exactly once with a connection-level error)').replace(' (as in C03/C04)','')
     return f'"{t}. {s}"'
 plan={
- 'A':[('C20',1),('C17',1),('C19',1),('C07',1)],
- 'B':[('C14',1),('C06',1),('C18',1),('C03',1)],
- 'C':[('C04',1),('C09',1),('C13',1),('C12',1)],
- 'D':[('C05',1),('C02',1),('C01',1),('C11',1)],
+ 'A':[('C15',1),('C16',1),('C01',1)],
+ 'B':[('C10',1),('C08',1),('C18',1)],
+ 'C':[('C02',1),('C13',1),('C01',1)],
+ 'D':[('C08',1),('C10',1),('C16',1)],
 }
 for ag,items in plan.items():
     n=sum(k for _,k in items)
